@@ -231,6 +231,12 @@ class LArr(ndarray):
         return _finish(LArr(tuple(oshape), self.dtype, g))
 
     def __setitem__(self, key, value):
+        kt = key if isinstance(key, tuple) else (key,)
+        if _b.any(isinstance(k, (_b.bool, _np.bool_)) for k in kt):
+            # NumPy: a scalar False index selects nothing, a scalar True index adds a unit axis
+            if _b.any(isinstance(k, (_b.bool, _np.bool_)) and not k for k in kt):
+                return
+            key = tuple(None if isinstance(k, (_b.bool, _np.bool_)) else k for k in kt)
         specs = self._plan(key)
         dt = self.dtype
         oshape = []
